@@ -145,7 +145,7 @@ func validJSON(b []byte) bool { return json.Valid(b) }
 // Spec computes what is allowed. t0/t1 are unix seconds around the call (for relative expiries).
 func Spec(pre *Doc, o *Op, t0, t1 int64, maxDoc int) Expect {
 	ex := spec(pre, o, t0, t1, maxDoc)
-	if macroMixed(o) || o.BadJSONX {
+	if macroMixed(o) || o.BadJSONX || o.BadName {
 		if ex.Accept == 1 {
 			ex.Accept, ex.Why = 0, "arg"
 		}
@@ -322,6 +322,9 @@ func spec(pre *Doc, o *Op, t0, t1 int64, maxDoc int) Expect {
 		return applySize(ex, len(pre.Body), p.X, maxDoc)
 
 	case KRemoveX:
+		if o.BadName && len(o.XDel) > 0 {
+			return fail("arg")
+		}
 		if !pre.Present {
 			return fail("exists")
 		}
@@ -346,7 +349,13 @@ func spec(pre *Doc, o *Op, t0, t1 int64, maxDoc int) Expect {
 		p := pre.clone()
 		p.Rev = pre.Rev + 1
 		p.X = mergeX(pre.X, nil, o.XDel)
-		return Expect{Accept: 1, Post: p, ExpLo: pre.Exp, ExpHi: pre.Exp, NewCas: 1, Event: 1}
+		ex := Expect{Accept: 1, Post: p, ExpLo: pre.Exp, ExpHi: pre.Exp, NewCas: 1, Event: 1}
+		if o.BadName {
+			// an unsupported path in the list: the call may refuse (then nothing is applied) or ignore that name, but
+			// it may not stop half-way: on success every valid name is gone (P C07 all-or-nothing)
+			ex.Accept, ex.Why = 0, "arg"
+		}
+		return ex
 
 	case KUpdateX:
 		if o.BadJSONX {
@@ -399,6 +408,9 @@ func spec(pre *Doc, o *Op, t0, t1 int64, maxDoc int) Expect {
 		p := Doc{Present: true, Body: nil, Rev: pre.Rev + 1, X: mergeX(pre.X, nil, o.XDel), Exp: pre.Exp}
 		ex := Expect{Accept: 1, Post: p, NewCas: 1, Event: 1, ExpLo: pre.Exp, ExpHi: pre.Exp}
 		ex.Post.Exp, ex.ExpLo, ex.ExpHi = 0, 0, 0 // a delete clears the expiry (P C14 "cleared by delete")
+		if o.BadName {
+			ex.Accept, ex.Why = 0, "arg" // see DeleteSubDocPaths
+		}
 		if pre.Live() {
 			ex.DCUserX = true // §3.7
 		}
